@@ -302,6 +302,10 @@ def cases(tier):
                 out.append({'fn': 'check_run_system', 'part': {'mols': list(shape), 'natoms': natoms, 'interleave': interleave},
                             'label': 'run_system[%s a%d i%d]' % (','.join(map(str, shape)) or '-', natoms, interleave),
                             'timeout': 200, 'path_timeout': 40, 'twin': m in (0, 2)})
+    for shape in ([2, 1, 3], [2, 3, 1], [3, 2, 4]):
+        # unequal residue counts whose mean equals the first one (a sequence as long as the first molecule must not be repeated)
+        out.append({'fn': 'check_run_system', 'part': {'mols': shape, 'natoms': 1, 'interleave': False},
+                    'label': 'run_system[%s mean=first]' % ','.join(map(str, shape)), 'timeout': 300, 'path_timeout': 40})
     for nres in (1, 2, 3):
         out.append({'fn': 'check_run_molecule', 'part': {'nres': nres, 'interleave': nres == 2},
                     'label': 'run_molecule[%d]' % nres, 'timeout': 120})
